@@ -16,7 +16,14 @@ type run18 struct {
 	ctx  sdk.Context
 }
 
+// each execution runs on a goroutine of its own (natively; symbolically the call is sequential): per-goroutine and
+// per-process runtime data that leaks into state or events differs between the two, as it would between nodes
 func exec18(ctx sdk.Context, fn func(c sdk.Context) (any, error)) (r run18) {
+	verifGo(func() { r = exec18on(ctx, fn) })
+	return
+}
+
+func exec18on(ctx sdk.Context, fn func(c sdk.Context) (any, error)) (r run18) {
 	r.ctx, _ = ctx.CacheContext()
 	r.ctx = r.ctx.WithGasMeter(storetypes.NewInfiniteGasMeter())
 	defer func() {
